@@ -207,9 +207,6 @@ func dumpBVH(h rendering.Hittable, b *strings.Builder, leaves map[int]rendering.
 		id := int(n1.X())
 		leaves[id] = h
 		fmt.Fprintf(b, "(BLeaf %d%%nat)", id)
-	case boxedSphere:
-		leaves[n.id] = h
-		fmt.Fprintf(b, "(BLeaf %d%%nat)", n.id)
 	case *rendering.Sphere:
 		id, ok := rawSphereID[n]
 		if !ok {
